@@ -415,8 +415,23 @@ class Runner:
         open(self.p("r.list"), "w").write("\n".join(R) + "\n")
         pr = sh([self.harness, "r", self.p("r.list")], timeout=3000)
         rstat = {l.split()[0]: l for l in pr.stdout.split("\n") if l.split()}
+        unread = set()
+        if pr.returncode != 0:
+            # the reader process died: blame the file it was reading, skip (do not misattribute) the ones after it
+            ids = [l.split()[0] for l in R]
+            pending = [i for i in ids if i not in rstat]
+            byid = dict(cases)
+            if pending:
+                cid0 = pending[0].split(".")[0]
+                if cid0 in byid:
+                    fail(cid0, byid[cid0], "reader-crash:%s" % pending[0].split(".", 1)[1], "the library crashed (exit status %d) while reading %s: %s" % (pr.returncode, pending[0], pr.stderr[-300:]))
+                unread = {i.split(".")[0] for i in pending}
+            self.stats["reader_process_crashes"] = self.stats.get("reader_process_crashes", 0) + 1
         for cid, c in cases:
             if not wstat.get(cid, "").endswith(" ok"):
+                continue
+            if cid in unread:
+                self.stats["cases_skipped_after_reader_crash"] = self.stats.get("cases_skipped_after_reader_crash", 0) + 1
                 continue
             want = c.lines(read_back=True)
             # harness sanity: the object the library wrote is the case
